@@ -1,6 +1,7 @@
 (* C04 - Strokes cover exactly the offset region implied by width, joins and caps.
    PARTIAL: the f32 model of stroke_to_path is compared bit for bit with the crate and the painted pixels with the f64
-   region of the statement; proved here: a non-positive width paints nothing, stroke = fill of the outline. *)
+   region of the statement; proved here: a non-positive width paints nothing, stroke = fill of the outline.
+   Further down (StrokeShape.v): the closed form of the outline of every open / closed polyline and of every piece, join and cap. *)
 Require Import RQ.Base RQ.F32 RQ.Raster RQ.PathF RQ.PathOps RQ.Target RQ.MiscProofs.
 
 Theorem C04_nonpositive_width_paints_nothing_partial : forall p st, fle (s_width st) f0 = true -> stroke_to_path p st = Ok (mk_path [] NonZero).
